@@ -242,6 +242,193 @@ impl Family for ZeroCols {
     }
 }
 
+/// Completions on one connection are a history: every sequence of `depth` exchanges over
+/// completions reported directly, in chains, as zero-column resultsets (text and binary), ordinary
+/// resultsets, errors, PREPARE replies and library-answered commands, with position-dependent
+/// counts from all length classes. Every OK packet must carry the counts of *its* completion.
+struct CompletionWalks {
+    depth: usize,
+}
+#[derive(Clone, Debug, PartialEq)]
+enum Exp {
+    Ok(u64, u64),
+    Rs(usize),
+    Err,
+    Any,
+}
+impl CompletionWalks {
+    const KINDS: [&'static str; 13] = [
+        "query->completed(a,b)",
+        "query->complete_one(a,b), completed(c,d)",
+        "query->zero-column set of n rows",
+        "query->2 rows of 1 column",
+        "execute->completed(a,b)",
+        "execute->zero-column set of n rows",
+        "execute->2 rows of 1 column",
+        "query->ERR",
+        "PREPARE again",
+        "PING",
+        "INIT_DB",
+        "query->1 row, then a zero-column set of n rows, then completed(a,b)",
+        "query->complete_one(a,b), rows, ERR",
+    ];
+    const VALS: [u64; 11] = [0, 1, 7, 250, 251, 65535, 65536, (1 << 24) - 1, 1 << 24, 1 << 32, u64::MAX];
+    const ROWS: [u64; 5] = [0, 1, 3, 251, 300];
+    fn plan(&self, idx: u64) -> (Vec<ClientCmd>, Vec<Arc<Vec<WOp>>>, Vec<Vec<Exp>>, Vec<String>) {
+        let mut rad = vec![3u64];
+        rad.extend(std::iter::repeat(Self::KINDS.len() as u64).take(self.depth));
+        let d = digits(idx, &rad);
+        let phase = d[0] as usize;
+        let c1 = Arc::new(vec![col("c", msql_srv::ColumnType::MYSQL_TYPE_LONG, msql_srv::ColumnFlags::empty())]);
+        let c0: Arc<Vec<msql_srv::Column>> = Arc::new(Vec::new());
+        let mut cmds = vec![ClientCmd::new(with_byte(COM_STMT_PREPARE, b"id=1 p=0"))];
+        let mut progs = Vec::new();
+        let mut exp = vec![vec![Exp::Any]];
+        let mut names = Vec::new();
+        for j in 0..self.depth {
+            let k = d[1 + j] as usize;
+            let v = |o: usize| Self::VALS[(phase * 4 + j * 3 + k + o) % Self::VALS.len()];
+            let n = Self::ROWS[(phase + j + k) % Self::ROWS.len()];
+            let (a, b, c, dd) = (v(0), v(5), v(2), v(7));
+            let zero = |p: &mut Vec<WOp>, last: bool| {
+                p.push(WOp::Start(c0.clone()));
+                for _ in 0..n {
+                    p.push(WOp::EndRow);
+                }
+                p.push(if last { WOp::Finish } else { WOp::FinishOne });
+            };
+            let rows = |p: &mut Vec<WOp>, r: usize, last: bool| {
+                p.push(WOp::Start(c1.clone()));
+                for x in 0..r {
+                    p.push(WOp::WriteRow(vec![Val::I32(x as i32)]));
+                }
+                p.push(if last { WOp::Finish } else { WOp::FinishOne });
+            };
+            let mut p = Vec::new();
+            let e = match k {
+                0 | 4 => {
+                    p.push(WOp::Completed(a, b));
+                    vec![Exp::Ok(a, b)]
+                }
+                1 => {
+                    p.push(WOp::CompleteOne(a, b));
+                    p.push(WOp::Completed(c, dd));
+                    vec![Exp::Ok(a, b), Exp::Ok(c, dd)]
+                }
+                2 | 5 => {
+                    zero(&mut p, true);
+                    vec![Exp::Ok(n, 0)]
+                }
+                3 | 6 => {
+                    rows(&mut p, 2, true);
+                    vec![Exp::Rs(2)]
+                }
+                7 => {
+                    p.push(WOp::Error(msql_srv::ErrorKind::ER_NO, b"no".to_vec()));
+                    vec![Exp::Err]
+                }
+                8 | 9 | 10 => vec![Exp::Any],
+                11 => {
+                    rows(&mut p, 1, false);
+                    zero(&mut p, false);
+                    p.push(WOp::Completed(a, b));
+                    vec![Exp::Rs(1), Exp::Ok(n, 0), Exp::Ok(a, b)]
+                }
+                _ => {
+                    p.push(WOp::CompleteOne(a, b));
+                    p.push(WOp::Start(c1.clone()));
+                    p.push(WOp::WriteRow(vec![Val::I32(1)]));
+                    p.push(WOp::FinishError(msql_srv::ErrorKind::ER_NO, b"late".to_vec()));
+                    vec![Exp::Ok(a, b), Exp::Any]
+                }
+            };
+            cmds.push(match k {
+                4 | 5 | 6 => ClientCmd::new(cmd_execute(1, 0, 1, &[])),
+                8 => ClientCmd::new(with_byte(COM_STMT_PREPARE, b"id=1 p=0")),
+                9 => ping(),
+                10 => ClientCmd::new(with_byte(COM_INIT_DB, b"db")),
+                _ => q(b"x"),
+            });
+            if !matches!(k, 8 | 9 | 10) {
+                progs.push(Arc::new(p));
+            }
+            names.push(format!("{} [a={} b={} c={} d={} n={}]", Self::KINDS[k], a, b, c, dd, n));
+            exp.push(e);
+        }
+        cmds.push(ping());
+        exp.push(vec![Exp::Any]);
+        (cmds, progs, exp, names)
+    }
+}
+impl Family for CompletionWalks {
+    fn ambient(&self, idx: u64) -> u64 {
+        crate::engine::rot(idx)
+    }
+    fn name(&self) -> String {
+        format!("completion-walks-depth-{}", self.depth)
+    }
+    fn len(&self) -> u64 {
+        3 * (Self::KINDS.len() as u64).pow(self.depth as u32)
+    }
+    fn run(&self, idx: u64, st: &mut Stats) -> Result<(), Violation> {
+        let (cmds, progs, exp, names) = self.plan(idx);
+        st.nontrivial += 1;
+        st.bump("completion_walks");
+        let conv = Conv::new(cmds);
+        let s = conv.stream();
+        let stream = Arc::new(s.bytes);
+        let mut sim = sim_for(&stream, vec![]);
+        sim.log_ops = false;
+        let mut k = 0usize;
+        let behave = Box::new(move |_: usize, cb: &Cb| match cb {
+            Cb::Prepare(_) => Behavior::PrepReply { id: 1, params: param_cols(0), cols: param_cols(0) },
+            Cb::Query(_) | Cb::Execute { .. } => {
+                let p = progs[k].clone();
+                k += 1;
+                Behavior::Prog(p)
+            }
+            Cb::Init(_) => Behavior::InitOk,
+            _ => Behavior::Silent,
+        });
+        let o = run_conn(sim, ConnCfg::new(behave));
+        st.transitions += names.len() as u64;
+        let tag = |e: String| format!("{:?}: {}", names, e);
+        if let ConnResult::Panic(l, m) = &o.res {
+            return Err(Violation::new(panic_key(l, m), tag(format!("run_on panicked at {}: {}", l, m))));
+        }
+        if !o.res.is_ok() {
+            return Err(Violation::new("result-not-ok", tag(format!("run_on returned {}", o.res.short()))));
+        }
+        let d = decode_all(delivered(&o), &conv, &s.last_seq, conv.cmds.len(), false).map_err(|e| Violation::new("reply-decode", tag(e)))?;
+        let mut want_ok = Vec::new();
+        for (i, e) in exp.iter().enumerate() {
+            let got = &d.replies[i];
+            if e.len() != got.len() && !(e.len() == 1 && e[0] == Exp::Any) {
+                return Err(Violation::new("unit-count", tag(format!("exchange {}: {} unit(s) decoded, {} reported", i, got.len(), e.len()))));
+            }
+            for (x, u) in e.iter().zip(got.iter()) {
+                let ok = match (x, u) {
+                    (Exp::Any, _) => true,
+                    (Exp::Ok(r, id), Unit::Ok { rows, id: gid, .. }) => {
+                        want_ok.push((*r, *id));
+                        rows == r && gid == id
+                    }
+                    (Exp::Rs(n), Unit::ResultSet { rows, end: Ok(_), .. }) => rows.len() == *n,
+                    (Exp::Err, Unit::Err(_)) => true,
+                    _ => false,
+                };
+                if !ok {
+                    return Err(Violation::new("count-differs-in-history", tag(format!("exchange {}: reported {:?}, the client decodes {}", i, x, format!("{:?}", u).chars().take(100).collect::<String>()))));
+                }
+            }
+        }
+        second_ok(&o.sim.out, &want_ok)
+    }
+    fn describe(&self, idx: u64) -> J {
+        json!(self.plan(idx).3)
+    }
+}
+
 pub fn build(quick: bool) -> Check {
     let vals = lattice();
     // every value of one component in a dense range (all of the 1- and 3-byte classes' small end,
@@ -257,7 +444,7 @@ pub fn build(quick: bool) -> Check {
     Check {
         id: "C14",
         level: "model_checking",
-        rule: format!("(rows, last_insert_id) over a lattice of {} values per component (0, 1, 250..256, 2^16, 2^24, 2^32, 2^63, 2^64-1, every 2^k and 2^k +- 1) squared x 4 contexts (completed; complete_one first/middle; completed after complete_one) x text/binary; every value 0..1100 (thorough: 0..70000 and 2^24+-300) of one component against 0, 7, 251, 65536, 2^24, 2^64-1 of the other, both ways round; zero-column resultsets with every row count 0..300 and 65535, 65536, 70000 via end_row, write_row (empty and with cells), ignored write_col (values and NULLs), and as the second of two zero-column sets. Oracle: refwire's length-encoded-integer decoding of the OK packet, and mysql_common's OkPacket. Non-trivial = a component beyond the one-byte class.", nv),
+        rule: format!("(rows, last_insert_id) over a lattice of {} values per component (0, 1, 250..256, 2^16, 2^24, 2^32, 2^63, 2^64-1, every 2^k and 2^k +- 1) squared x 4 contexts (completed; complete_one first/middle; completed after complete_one) x text/binary; every value 0..1100 (thorough: 0..70000 and 2^24+-300) of one component against 0, 7, 251, 65536, 2^24, 2^64-1 of the other, both ways round; zero-column resultsets with every row count 0..300 and 65535, 65536, 70000 via end_row, write_row (empty and with cells), ignored write_col (values and NULLs), and as the second of two zero-column sets; every sequence of <= 5 (thorough: 6) exchanges on one connection over 13 kinds (completions direct / chained / as zero-column sets in text and binary, ordinary resultsets, errors at once and after a completion, PREPARE, PING, INIT_DB) with position-dependent counts from every length class. Oracle: refwire's length-encoded-integer decoding of the OK packet, and mysql_common's OkPacket. Non-trivial = a component beyond the one-byte class.", nv),
         assumptions: vec!["64-bit components are covered at the boundary lattice, not exhaustively".into()],
         bounds: json!({"lattice": nv, "zero_column_max_exhaustive": 300}),
         exhaustive: true,
@@ -267,7 +454,11 @@ pub fn build(quick: bool) -> Check {
             Box::new(Pairs { vals: dense, other: Some(few), label: "dense-range-x-few" }),
             Box::new(ZeroCols { counts }),
             Box::new(super::aftermath::Aftermath { prop: "C14" }),
+            Box::new(CompletionWalks { depth: 2 }),
+            Box::new(CompletionWalks { depth: 3 }),
+            Box::new(CompletionWalks { depth: 4 }),
+            Box::new(CompletionWalks { depth: if quick { 5 } else { 6 } }),
         ],
-        required: vec!["aftermath_recovered", "eight_byte_lenenc", "zero_column_sets"],
+        required: vec!["aftermath_recovered", "completion_walks", "eight_byte_lenenc", "zero_column_sets"],
     }
 }
